@@ -73,9 +73,9 @@ class VLoop(asyncio.SelectorEventLoop):
         super()._run_once()
 
 
-def run(coro_fn: Callable[[], Any]):
+def run(coro_fn: Callable[[], Any], loop_factory: Callable[[], "VLoop"] | None = None):
     """run `coro_fn()` as task "0" on a fresh virtual loop; returns ("ok", value) | ("exc", e) | ("hang", msg)"""
-    loop = VLoop()
+    loop = (loop_factory or VLoop)()
     asyncio.set_event_loop(loop)
     try:
         from sniffio import thread_local
@@ -214,14 +214,19 @@ class MemTransport(AsyncStreamTransport):
       recv_err_at / send_err_at   the n-th (1-based) call raises OSError after its suspension (0 = never)
       on_send(data)    where written bytes go
       classify(data)   provenance of a send_all payload ("bio", "plain", "mixed", "empty")
+      lend             recv_into KEEPS the caller's buffer across one more suspension: once bytes are available a loop
+                       callback copies them into the lent buffer and resolves a future, the caller resumes one loop
+                       iteration later (what asyncio's BufferedProtocol does).  With two transports of this kind in one
+                       process (peer = "easynet") two fills can land before either reader has looked at its buffer.
     """
 
     def __init__(self, backend: HBackend, rec: Rec | None, *, frags: list[int] | None = None, cycle: bool = False,
                  rpause: list[float] | None = None, spause: list[float] | None = None,
-                 recv_err_at: int = 0, send_err_at: int = 0) -> None:
+                 recv_err_at: int = 0, send_err_at: int = 0, lend: bool = False) -> None:
         super().__init__()
         self._backend = backend
         self.rec = rec
+        self.lend = bool(lend)
         self.inbox = bytearray()
         self.eof_in = False
         self.frags = deque(frags or [])
@@ -324,6 +329,24 @@ class MemTransport(AsyncStreamTransport):
                 want = 1 << 30
             with memoryview(buffer) as mv:
                 mv = mv.cast("B") if mv.itemsize != 1 else mv
+                if self.lend and mv.nbytes:
+                    loop = asyncio.get_running_loop()
+                    fut: asyncio.Future = loop.create_future()
+
+                    def fill() -> None:                   # a loop callback, like the selector's read event
+                        k = max(1, min(want, len(self.inbox), mv.nbytes))
+                        blob = bytes(self.inbox[:k])
+                        mv[:k] = blob
+                        del self.inbox[:k]
+                        self.taken += blob
+                        if not fut.done():
+                            fut.set_result(blob)
+
+                    loop.call_soon(fill)
+                    data = await fut                       # the buffer is filled one iteration before we run again
+                    n = len(data)
+                    self._op(f"resume {t} data {data.hex()}")
+                    return n
                 n = max(1, min(want, len(self.inbox), mv.nbytes))
                 data = bytes(self.inbox[:n])
                 mv[:n] = data
